@@ -13,7 +13,7 @@ PROPS = {
              "(elastic / fixed TTL / fixed Never, mixed) + a history of about 20 steps (thorough 30) drawn as a shrinkable list: create/delete(terminating)/sandbox-exit/gone per pod, in a third of the histories also Node object removed / registered again (collector passes are favoured while one is missing), "
              "with a drawn node (same name, new UID, same or other node), ReconcilePod(name), ReconcilePodENI(name), gcCR, gcSecondary, gcMember, CNI ADD for the current pod instance through the real daemon-side Remote.Allocate (pkg/eni/remote.go, wait backoff shortened with backoff.OverrideBackoff), each reconcile step with an optional "
              "cloud fault mask (Create/Attach/Detach/Delete per interface slot, Describe, DescribeVSwitch), API fault mask (Get pod/node/record, List, Create, Update, Patch, status Update/Patch, Delete, read-back failure = every Get of the record after its Create in the same step fails and the reconcile context is cancelled; "
-             "internal error or conflict) and an optional action executed INSIDE the step's first cloud call (pod leaves / appears, the other controller runs, or both: pod gone + ReconcilePod while ReconcilePodENI is inside AttachNetworkInterface); cloud fault bits are drawn from the calls the step kind can issue; additionally an optional cloud outage (one call kind + interface slot fails during a window of steps) and up to 4 entries of the form: the n-th Delete/Detach call of the history fails; then faults off and 8 settle rounds of (ReconcilePod, ReconcilePodENI) per name - or, in a quarter of the cases, the pod controller stays down and 6 rounds of (gcCRPodENIs, ReconcilePodENI per name) must remove every record without fixed IP whose pod is gone (phase Initial / Bind / Deleting) together with its interfaces. "
+             "internal error or conflict) and an optional action executed INSIDE the step's first cloud call (pod leaves / appears, the other controller runs, or both: pod gone + ReconcilePod while ReconcilePodENI is inside AttachNetworkInterface); cloud fault bits are drawn from the calls the step kind can issue; additionally (attach faults are per interface slot, so one interface of a two-interface pod can be attached while its sibling fails and no instance id reaches the status) an optional cloud outage (one call kind + interface slot fails during a window of steps) and up to 4 entries of the form: the n-th Delete/Detach call of the history fails; then faults off and 8 settle rounds of (ReconcilePod, ReconcilePodENI) per name - or, in a quarter of the cases, the pod controller stays down and 6 rounds of (gcCRPodENIs, ReconcilePodENI per name) must remove every record without fixed IP whose pod is gone (phase Initial / Bind / Deleting) together with its interfaces. "
              "Non-trivial = the history recreates a pod under a used name, or a fault hits between interface creation and record creation (rollback runs), or a pod leaves while its record is "
              "Initial/Binding (deletion racing attachment). TestVerifC10SeededStates: the same interpreter and oracles started from seeded mid-life states; half of the cases end with that pod-controller-down settle, and in a third record 0 is by construction an orphan without fixed IP (elastic allocations only, phase Initial / Bind / Deleting, pod absent); non-trivial there additionally = such an orphan exists when the settle starts (C11's retention generator: 1..3 records in any of the six phases with backdated podLastSeen/creation time and pods absent / alive / exited / terminating, then 1..8 of gcCR, pod events, ReconcilePod, ReconcilePodENI), which reaches what the closed loop cannot within a case: fixed-IP records given up by the TTL collector (phase Deleting) while the pod controller still reconciles the dead pod; non-trivial there = last-seen age within 30 s of a TTL boundary or >= 2 allocations with different strategies. distinct = distinct scenario hash",
         assumptions=[
